@@ -105,6 +105,10 @@ func TestC07Retained(t *testing.T) {
 					}
 					nodes = append(nodes, r)
 				}
+				// the snapshot also carries an entry the receiver refuses (a subscription without a session identifier, as the
+				// node's RPC API lets an operator create): what the receiver does with THAT is not judged, the retained
+				// messages of the same snapshot must arrive all the same
+				a.do(func() { a.st.Subscriptions().CreateFrom("", 1, []byte("m/ghost"), 0) })
 				snap := newDNode("S", 99, 0)
 				snap.st.Distributor().MergeRemoteState(a.st.Distributor().LocalState(false), true)
 				nodes = append(nodes, snap)
